@@ -11,26 +11,33 @@ theorem trialStepOK_refl (t : Trial) : trialStepOK t t = true := by
 
 theorem trialStepOK_iff (t t' : Trial) :
     trialStepOK t t' = true ↔
-      legal t.state t'.state = true ∧ t'.params = t.params ∧ (t.state.completed = true → t' = { t with md := t'.md }) := by
+      legal t.state t'.state = true ∧ t'.params = t.params ∧ (t.state.completed = true → t' = { t with md := t'.md }) ∧
+        (t.state ≠ .requested → t'.client = t.client) := by
   simp only [trialStepOK, Bool.and_eq_true, Bool.or_eq_true, Bool.not_eq_true', beq_iff_eq, and_assoc]
   constructor
-  · rintro ⟨h1, h2, h3⟩
-    refine ⟨h1, h2, fun hc => ?_⟩
-    rcases h3 with h3 | h3
-    · rw [hc] at h3; cases h3
-    · exact h3
-  · rintro ⟨h1, h2, h3⟩
-    refine ⟨h1, h2, ?_⟩
-    cases hc : t.state.completed with
-    | false => exact Or.inl rfl
-    | true => exact Or.inr (h3 hc)
+  · rintro ⟨h1, h2, h3, h4⟩
+    refine ⟨h1, h2, fun hc => ?_, fun hr => ?_⟩
+    · rcases h3 with h3 | h3
+      · rw [hc] at h3; cases h3
+      · exact h3
+    · rcases h4 with h4 | h4
+      · exact absurd h4 hr
+      · exact h4
+  · rintro ⟨h1, h2, h3, h4⟩
+    refine ⟨h1, h2, ?_, ?_⟩
+    · cases hc : t.state.completed with
+      | false => exact Or.inl rfl
+      | true => exact Or.inr (h3 hc)
+    · by_cases hr : t.state = .requested
+      · exact Or.inl hr
+      · exact Or.inr (h4 hr)
 
 /-- a legal evolution followed by a change of metadata only -/
 theorem trialStepOK_then_md (a b : Trial) (m : MD) (h : trialStepOK a b = true) :
     trialStepOK a { b with md := m } = true := by
   rw [trialStepOK_iff] at *
-  obtain ⟨l1, p1, f1⟩ := h
-  refine ⟨l1, p1, fun hc => ?_⟩
+  obtain ⟨l1, p1, f1, c1⟩ := h
+  refine ⟨l1, p1, fun hc => ?_, c1⟩
   have hb := f1 hc
   rw [hb]
 
@@ -38,14 +45,14 @@ theorem trialStepOK_then_md (a b : Trial) (m : MD) (h : trialStepOK a b = true) 
 theorem trialStepOK_md_then (a c : Trial) (m : MD) (h : trialStepOK { a with md := m } c = true) :
     trialStepOK a c = true := by
   rw [trialStepOK_iff] at *
-  obtain ⟨l1, p1, f1⟩ := h
-  refine ⟨l1, p1, fun hc => ?_⟩
+  obtain ⟨l1, p1, f1, c1⟩ := h
+  refine ⟨l1, p1, fun hc => ?_, c1⟩
   have := f1 hc
   rw [this]
 
 /-- a change of metadata only is always a legal evolution -/
 theorem trialStepOK_md (t : Trial) (m : MD) : trialStepOK t { t with md := m } = true := by
-  rw [trialStepOK_iff]; exact ⟨legal_refl _, rfl, fun _ => rfl⟩
+  rw [trialStepOK_iff]; exact ⟨legal_refl _, rfl, fun _ => rfl, fun _ => rfl⟩
 
 /-! ### lists of trials -/
 
